@@ -7,7 +7,9 @@ reflection, used only for the size clause.
 
 Three levels, one predicate each:
   * `holds`   – raw cache: a hit/`Has = true` for `k` at `t` ⇒ the LAST successful `Set`/`Del` of `k` before it
-                is a `Set k v ttl` at `t₀` with the same value and `t ≤ t₀ + ttl`; size clause.
+                is a `Set k v ttl` at `t₀` with the same value and `t ≤ t₀ + ttl` (wall clock, as the code compares);
+                and, while expiry timers run on time, ALSO in elapsed time: elapsed < elapsed₀ + ttl even if the
+                wall clock was stepped back in between; size clause.
   * `cholds`  – caching remedy: an early response for (method, URL, selected path parameters) at `t` ⇒ some
                 earlier storable response for the SAME method, URL and selected parameters carried exactly
                 this status/body/headers and `t₀ ≤ t ≤ t₀ + TTL`; size clause.
@@ -32,6 +34,26 @@ def lastStore (k : κ) : List (Rec κ ν) → Option (ν × Int × Int)
     | .del k', _ => if k' = k then none else lastStore k older
     | _, _ => lastStore k older
 
+/-- Elapsed-time deadline (elapsed clock at the store + ttl) of the last successful `Set k` not followed by a
+    `Del k`: by then its own expiry timer has run if timers run on time. -/
+def storeDue (k : κ) : List (Rec κ ν) → Option Int
+  | [] => none
+  | r :: older =>
+    match r.ev, r.out with
+    | .set k' _ ttl _, .setRes .ok => if k' = k then some (r.m + ttl) else storeDue k older
+    | .del k', _ => if k' = k then none else storeDue k older
+    | _, _ => storeDue k older
+
+/-- no `skip` so far: whenever time passed, the due expiry timers ran (`adv`) -/
+def timersOnTime : List (Rec κ ν) → Bool
+  | [] => true
+  | r :: older => (match r.ev with | .skip _ => false | _ => true) && timersOnTime older
+
+/-- freshness in ELAPSED time: while timers run on time, a hit comes strictly before the entry's elapsed deadline,
+    whatever the wall clock did in between (stepped back by NTP, a VM resume, …) -/
+def elapsedFresh (k : κ) (m : Int) (older : List (Rec κ ν)) : Bool :=
+  !timersOnTime older || (match storeDue k older with | some d => decide (m < d) | none => false)
+
 /-- `r` is a successful `Set k` or a `Del k`. -/
 def touches (k : κ) (r : Rec κ ν) : Bool :=
   match r.ev, r.out with
@@ -46,10 +68,10 @@ def freshStore (v? : Option ν) (t : Int) : Option (ν × Int × Int) → Bool
 /-- Conditions on the newest record given everything before it. -/
 def recOk (cfg : Cfg) (r : Rec κ ν) (older : List (Rec κ ν)) : Bool :=
   match r.ev, r.out with
-  | .get k, .got (some v) => freshStore (some v) r.t (lastStore k older)
+  | .get k, .got (some v) => freshStore (some v) r.t (lastStore k older) && elapsedFresh k r.m older
   | .get _, .got none => true
   | .get _, _ => false
-  | .has k, .hasRes true => freshStore none r.t (lastStore k older)
+  | .has k, .hasRes true => freshStore none r.t (lastStore k older) && elapsedFresh k r.m older
   | .has _, .hasRes false => true
   | .has _, _ => false
   | .probe, .probed tracked held _ _ =>
@@ -84,7 +106,9 @@ def cJustifies (cfg : CCfg) (t : Int) (m u : σ) (sel : List (σ × σ))
 
 def cRecOk (cfg : CCfg) (r : PRec σ) (older : List (PRec σ)) : Bool :=
   match r.op, r.out with
-  | .req m u sel, .early st body tag (.raw ra) => older.any (cJustifies cfg r.t m u sel st body tag ra)
+  | .req m u sel, .early st body tag (.raw ra) extra =>
+    -- the stored copy is the provider's response: no header the provider never sent
+    decide (extra = 0) && older.any (cJustifies cfg r.t m u sel st body tag ra)
   | .req _ _ _, .noop => true
   | .req _ _ _, _ => false
   | .probe, .probed tracked held _ _ =>
@@ -134,7 +158,8 @@ def tJustifies (cfg : TCfg) (t : Int) (m u : σ) (st : Nat) (body : σ) (tag : O
 
 def tRecOk (cfg : TCfg) (r : PRec σ) (older : List (PRec σ)) : Bool :=
   match r.op, r.out with
-  | .req m u _, .early st body tag ra => older.any (tJustifies cfg r.t m u st body tag ra)
+  | .req m u _, .early st body tag ra extra =>
+    decide (extra = 0) && older.any (tJustifies cfg r.t m u st body tag ra)
   | .req _ _ _, .noop => true
   | .req _ _ _, _ => false
   | _, _ => true
